@@ -306,17 +306,19 @@ class Explorer(object):
             values = []
             self._solver.push()
             try:
+                probe = z3.Int(self.fresh_name("value"))      # a constant always gets a numeral in the model
+                self._solver.add(probe == s)
                 while True:
                     r = self._check()
                     if r == z3.unknown:
                         raise UnwindingError("unknown while enumerating integer values")
                     if r == z3.unsat:
                         break
-                    v = self._solver.model().eval(s, model_completion=True).as_long()
+                    v = self._solver.model().eval(probe, model_completion=True).as_long()
                     values.append(v)
                     if len(values) > limit:
                         raise UnwindingError("more than %d feasible integer values" % limit)
-                    self._solver.add(s != v)
+                    self._solver.add(probe != v)
             finally:
                 self._solver.pop()
             if not values:
